@@ -1,6 +1,8 @@
 package executor
 
 import (
+	"errors"
+
 	"github.com/buildbuildio/pebbles/gqlerrors"
 	"github.com/buildbuildio/pebbles/planner"
 )
@@ -55,6 +57,11 @@ func NewDepthExecutorManager(ctx *ExecutionContext) *DepthExecutorManager {
 func (dem *DepthExecutorManager) Execute() (map[string]interface{}, error) {
 	executionRequests := make([]*ExecutionRequest, 0)
 	errs := gqlerrors.ErrorList{}
+
+	// a plan without root steps cannot be executed
+	if dem.depthExecutors[0] == nil {
+		return nil, errors.New("query plan contains no root steps")
+	}
 
 	// for initial step construct root queries
 	for _, step := range dem.depthExecutors[0].QueryPlanSteps {
